@@ -35,7 +35,7 @@ static size_t keepOf(int b)
 
 typedef struct { size_t ilen, xlen; octet tag[32]; size_t tlen; } get_t;
 
-static int runScript(int b, size_t klen, const char* script)
+static int runScript(int b, size_t klen, const char* script, int reloc_all)
 {
 	octet* key = rnd(klen); octet iv[16];
 	size_t cap = 4096, inl = 0, hl = 0, ng = 0, vbad = 0, keep = keepOf(b);
@@ -62,11 +62,13 @@ static int runScript(int b, size_t klen, const char* script)
 		char c = *p++; size_t n = 0;
 		while (*p >= '0' && *p <= '9') n = n * 10 + (size_t)(*p++ - '0');
 		if (*p == ',') ++p;
-		if (c == 'R')
+		if (c == 'R' || reloc_all)
 		{	/* relocate: copy the state elsewhere, overwrite and release the original */
 			void* st2 = malloc(keep); memcpy(st2, st, keep); memset(st, 0x5A, keep); free(st); st = st2;
 		}
-		else if (c == 'I')
+		if (c == 'R')
+			continue;
+		if (c == 'I')
 		{
 			octet* frag = (octet*)malloc(n ? n : 1);	/* exact-size fragment buffer */
 			if (hl + n > cap) return 2;
@@ -145,7 +147,7 @@ static int runScript(int b, size_t klen, const char* script)
 		size_t hwm = keep; while (hwm && ((octet*)st)[hwm - 1] == 0xC3) --hwm;
 		jBegin(); jStr("e", "Region"); jStr("f", BN[b]); jStr("kind", "state"); jInt("size", (long long)keep); jInt("hwm", (long long)hwm); jEnd();
 	}
-	jBegin(); jStr("op", "steps"); jStr("b", BN[b]); jStr("script", script);
+	jBegin(); jStr("op", "steps"); jStr("b", BN[b]); jStr("script", script); jInt("reloc", reloc_all);
 	jOct("key", key, klen); jOct("iv", iv, 16); jOct("hdr", hdr, hl); jOct("in", in, inl);
 	if (b == B_MAC || b == B_HASH || b == B_HMAC) jOct("out", out, 0); else jOct("out", out, inl);
 	jInt("vbad", (long long)vbad);
@@ -175,7 +177,7 @@ int stepsMain(void)
 		if (!bn || !script) continue;
 		for (b = 0; b < B_N; ++b) if (strcmp(BN[b], bn) == 0) break;
 		if (b == B_N) { fprintf(stderr, "unknown bundle %s\n", bn); return 3; }
-		if (runScript(b, (size_t)vxInt(&c, "klen", 32), script)) return 2;
+		if (runScript(b, (size_t)vxInt(&c, "klen", 32), script, (int)vxInt(&c, "reloc", 0))) return 2;
 	}
 	return 0;
 }
@@ -248,7 +250,7 @@ int overlapMain(void)
 		else if (!strcmp(f, "cheW")) { rc = beltCHEWrap(dest, tag, src, len, hdr, hlen, key, klen, iv); memcpy(tagout, tag, 8); tagoutlen = 8; }
 		else if (!strcmp(f, "dwpU")) rc = beltDWPUnwrap(dest, src, len, hdr, hlen, tag, key, klen, iv);
 		else if (!strcmp(f, "cheU")) rc = beltCHEUnwrap(dest, src, len, hdr, hlen, tag, key, klen, iv);
-		else if (!strcmp(f, "keyExpand")) { beltKeyExpand(dest, src, klen); outlen = 32; memcpy(ksnap, ssnap, klen); }
+		else if (!strcmp(f, "keyExpand")) { klen = len; beltKeyExpand(dest, src, klen); outlen = 32; memcpy(ksnap, ssnap, klen); }
 		else if (!strcmp(f, "memMove")) { memMove(dest, src, len); }
 		else if (!strcmp(f, "memJoin")) { memJoin(dest, src, len, hdr, hlen); outlen = len + hlen; }
 		else { fprintf(stderr, "unknown function %s\n", f); return 3; }
